@@ -111,9 +111,10 @@ def run_part(ctx, shapes_per_depth=None, max_reports=4):
         "candidates": res.get("candidates", len(cands)), "coords_checked": res.get("coords_checked", 0),
         "K_ulps": res.get("K"), "max_err_over_tol": res.get("max_err_over_tol"), "worst_case": res.get("worst_case"),
         "per_function_cases_and_max_err_over_tol": res.get("per_function", {}), "per_device": res.get("per_device", {}),
+        "boundary_cases": res.get("boundary", {}),
         "shapes_per_depth": per, "seed": ctx.seed, "driver_cmd": cmd,
         "rule": ("cases = one call of a composite (logsumexp, log_softmax, softmax, sum, mean, softmax_cross_entropy dense [t of batch B / batch 1] "
-                 "and sparse [B ids / 1 id], batch::mean, batch::normalize, selu [defaults / custom], dropout [disabled / rate 1 / rate 0 / rate .5], "
+                 "and sparse [B ids / 1 id], batch::mean, batch::normalize, selu [defaults / custom], dropout [rate 0, .25, .5, 1 x enabled false/true: disabled = x bit for bit for every rate with -0.0/+inf/-inf among the values, enabled rate 1 = zeros, enabled rate 0 = x, else each element 0 or x/(1-rate); Tensor argument and Node argument], "
                  "sum and mean over a container of 3, zeros, ones) on devices::Naive and devices::Eigen through the Tensor API and again through the Node API; "
                  "shapes of depth 0..4 with extents 1..4 (inner 1s allowed), every axis 0..5 (so also axes at/beyond the depth), minibatch 1,2,3; "
                  "inputs uniform in [-8,8], targets in [0,1]; every output coordinate compared with the documented formula evaluated in double by the driver; "
